@@ -269,7 +269,7 @@ def lex_word_candidates(maxlen):
     special = ['inf', 'Inf', 'INF', 'infinity', 'Infinity', 'nan', 'NaN', 'NAN', 'true', 'false', 'True', 'FALSE', '0x7fffffffffffffff', '0x8000000000000000', '0xffffffffffffffffff', '9223372036854775807', '9223372036854775808', '99999999999999999999', '0X1f', '1_000', '0x', '0xg', '1e400', '1e-400', '4.9e-324', '1.7976931348623157e308', '0.1', '00012', '0x00ff', '1e5', '1E5', '1.e5', '.5e1', '5.', 'inf1', 'nanx', 'infinit']
     for s in itertools.chain(special, ("".join(t) for n in range(1, maxlen + 1) for t in itertools.product(chars, repeat=n))):
         if True:
-            for src in (s, s + "-" + s, s + "+" + s, "a-" + s, s + "e-3", "0x" + s):
+            for src in (s, s + "-" + s, s + "+" + s, "a-" + s, s + "e-3", "0x" + s, s + "-1", s + "+9"):
                 if not ok.match(src):
                     continue
                 segs = re.split(r"([+-])", src)
@@ -283,7 +283,7 @@ def lex_word_candidates(maxlen):
 
 def c06(chk):
     chk.rule = ("every word over {0 1 9 a e E x f . _} up to the length bound, alone and embedded (w-w, w+w, a-w, we-3, 0xw, "
-                "'w 1'), and every string body over {a \" \\ / * newline space + a-umlaut emoji} quoted with and without "
+                "'w 1', w-1, w+9), and every string body over {a \" \\ / * newline space + a-umlaut emoji} quoted with and without "
                 "escaping; non-trivial = distinct sources the specification classifies as well-formed")
     chk.trusted.append("Rust's f64::from_str for the value of a float-looking word (primgen); the specification decides "
                        "segmentation and classification")
